@@ -4,6 +4,7 @@ package c11
 
 import (
 	"fmt"
+	"net/http"
 	"strings"
 	"testing"
 	"testing/synctest"
@@ -32,21 +33,30 @@ func clientAddr(k int) string { return fmt.Sprintf("10.%d.%d.%d:4%03d", k%5, (k/
 
 func TestC11Sequential(t *testing.T) {
 	sub := lab.Sub("reconfig-sequential", "rapid histories over the admin API handlers {add(name from {a, b, c, d, 'a ', 'b\\n', ' c'}, address valid/unparsable/empty, weight -2..6 or, one in eight, 100/256/257/999/5000), remove(name incl. absent), set_strategy(5 known + unknown/empty/wrong-case), "+
-		"eject, list, request, hold (request parked in a backend), release, eligibility burst} against a reference model (multiset of name/address/effective weight/health + strategy name); "+
+		"eject, list, request, hold (request parked in a backend), release, eligibility burst, wait (virtual time passes: 1 ms .. 29 s, one probe interval)} under a drawn health-check section (active probes off/on with interval 2-600 s, timeout 1-10 s, 4 paths; passive checks off/on with threshold 1-5, window 1-60 s; "+
+		"every probe and every proxied answer is a 200, so only the history's own ejections make a backend unhealthy) against a reference model (multiset of name/address/effective weight/health + strategy name); "+
 		"duplicate add may answer 201 (listed twice) or 4xx (unchanged); after remove no entry of that name may be listed or served; failed operations change nothing; strategy switch keeps the listing identical; parked requests finish normally; "+
 		"non-trivial = history with a repeated name, or a remove followed by traffic, or a strategy switch with an ejected backend")
 	sub.NontrivialFloor(0.45)
-	lab.Assume("admin handlers are driven in process (adminapi.NewMux) with a loopback RemoteAddr; L1 scripted backends; the strategy name is observed through the configuration object the balancer was built from")
+	lab.Assume("admin handlers are driven in process (adminapi.NewMux) with a loopback RemoteAddr; L1 scripted backends (http.DefaultTransport, which the active prober uses, is scripted too); virtual time via testing/synctest with Helios's own probe ticker; the strategy name is observed through the configuration object the balancer was built from")
+	sub.Floor("active-checks-on", 0.4)
+	sub.Floor("passive-checks-on", 0.3)
 	maxLen := lab.Scale(40, 90)
 	lab.Check(t, sub, 3000, 100000, func(rt *rapid.T) {
 		strategy := rapid.SampledFrom(lab.Strategies).Draw(rt, "strategy")
 		n0 := rapid.IntRange(1, 3).Draw(rt, "n0")
 		steps := rapid.IntRange(1, maxLen).Draw(rt, "steps")
+		e := genEnv(rt)
 		var hist []string
 		var viol string
-		repeated, rmTraffic, switchEjected := false, false, false
+		repeated, rmTraffic, switchEjected, waited := false, false, false, false
+		fn := lab.NewFakeNet()
+		// Helios's active prober uses the default transport: scripted as well while the case runs
+		oldDefault := http.DefaultTransport
+		http.DefaultTransport = fn.ProbeTransport()
+		defer func() { http.DefaultTransport = oldDefault }()
 		rapid.SyncTest(rt, func(rt *rapid.T) {
-			s, model, err := newSys(strategy, n0)
+			s, model, err := newSysEnv(strategy, n0, e, fn)
 			if err != nil {
 				rt.Fatalf("harness: %v", err)
 			}
@@ -109,8 +119,20 @@ func TestC11Sequential(t *testing.T) {
 				}(); t > whist {
 					whist = t
 				}
-				k := rapid.IntRange(0, 99).Draw(rt, "op")
+				k := rapid.IntRange(0, 107).Draw(rt, "op")
 				switch {
+				case k >= 100: // wait: virtual time passes (probe ticks happen, nothing the statement speaks of does)
+					// the history's own ejections last an hour: at most 90 waits of less than 30 s stay well inside
+					ds := []time.Duration{time.Millisecond, 300 * time.Millisecond, time.Second, 2*time.Second + time.Millisecond, 7 * time.Second, 29 * time.Second}
+					if e.Active && e.IntervalS <= 29 {
+						ds = append(ds, time.Duration(e.IntervalS)*time.Second, time.Duration(e.IntervalS)*time.Second+time.Millisecond)
+					}
+					d := rapid.SampledFrom(ds).Draw(rt, "wait")
+					time.Sleep(d)
+					synctest.Wait()
+					waited = true
+					hist = append(hist, fmt.Sprintf("wait(%v)", d))
+					viol = checkList("after wait(" + d.String() + ")")
 				case k < 22: // add
 					name := rapid.SampledFrom(names).Draw(rt, "name")
 					if rapid.IntRange(0, 14).Draw(rt, "noname") == 0 {
@@ -345,7 +367,10 @@ func TestC11Sequential(t *testing.T) {
 			}
 		})
 		nt := repeated || rmTraffic || switchEjected
-		labels := []string{strategy}
+		labels := append([]string{strategy}, e.labels()...)
+		if waited {
+			labels = append(labels, "time-passes")
+		}
 		if repeated {
 			labels = append(labels, "repeated-name")
 		}
@@ -355,9 +380,9 @@ func TestC11Sequential(t *testing.T) {
 		if switchEjected {
 			labels = append(labels, "switch-with-ejected")
 		}
-		sub.Case(map[string]any{"strategy": strategy, "n0": n0, "history": hist}, nt, labels...)
+		sub.Case(map[string]any{"strategy": strategy, "n0": n0, "health_checks": e, "history": hist}, nt, labels...)
 		if viol != "" {
-			rt.Fatalf("strategy %s n0 %d history %v: %s", strategy, n0, hist, viol)
+			rt.Fatalf("strategy %s n0 %d health checks %+v history %v: %s", strategy, n0, e, hist, viol)
 		}
 	})
 }
